@@ -893,3 +893,36 @@ def record_before_call(ctx, rule):
             'the configurable can be called before the operative record is updated (the update at line %d comes later, or only on some paths): a call that '
             'raises leaves no record, and a record written after the call survives a clear_config made during the call' % ups[0].lineno,
             f.loc(w.call_node.ast), instance='record-before-call', path=describe_path(g, late) if late else None)
+
+
+def bindings_result_fresh(ctx, rule):
+  """_get_bindings hands out a dict of its own: callers remove names from it (the wrapper pops what the caller supplied), so a
+  result that *is* an entry of the binding store would delete bindings from the configuration."""
+  from ..lib import copy_kind, returns_of
+  f = ctx.func('config._get_bindings')
+  seen = set()
+
+  def stored(e, depth=0):
+    """True if e may denote an entry of _CONFIG itself (not a copy)."""
+    if depth > 4:
+      return False
+    if isinstance(e, ast.IfExp):
+      return stored(e.body, depth) or stored(e.orelse, depth)
+    if isinstance(e, ast.BoolOp):
+      return any(stored(v, depth) for v in e.values)
+    if isinstance(e, ast.Subscript) and not isinstance(e.slice, ast.Slice):
+      return u(e.value) == '_CONFIG'
+    if isinstance(e, ast.Call) and isinstance(e.func, ast.Attribute) and e.func.attr in ('get', 'setdefault', 'pop') and u(e.func.value) == '_CONFIG':
+      return True
+    if isinstance(e, ast.Name):
+      if e.id in seen:
+        return False
+      seen.add(e.id)
+      return any(stored(a.value, depth + 1) for a in walk_local(f.node) if isinstance(a, ast.Assign) and len(a.targets) == 1 and u(a.targets[0]) == e.id)
+    return False
+  rets = [r for r in returns_of(f) if r.value is not None]
+  bad = [r for r in rets if stored(r.value)]
+  ctx.check(bool(rets) and not bad, rule, construct(f), 'the merged bindings are returned in a dict of their own, never an entry of the binding store',
+            '_get_bindings can return an entry of _CONFIG itself (`%s` may be the stored dict): the wrapper pops caller-supplied names from the result, '
+            'which then deletes those bindings from the configuration for every later call' % (u(bad[0].value) if bad else ''),
+            f.loc(bad[0]) if bad else f.loc(), instance='result-fresh')
